@@ -86,26 +86,22 @@ Example C02_run_nonvacuous :
 Proof. vm_compute. reflexivity. Qed.
 
 (* ---- MachineModel.is_compatible -------------------------------------------------------------------------- *)
-(* the code answers exactly the independent check (width, native gates, coupling after placement, radixes)
-   whenever the placement keeps the order of every interacting pair -- in particular for placement = None *)
-Theorem C02_is_compatible_spec_partial : forall m c opl b,
-  is_compatible m c opl = Some b -> monotone_on c (placement_of c opl) = true ->
-  b = spec m c (placement_of c opl).
+(* the code (with GateSet containment, Circuit.coupling_graph, the CouplingGraph edge normalisation and the
+   either-orientation edge test of repo commit cf72da2) answers exactly the independent check -- width, native
+   gates, every interacting pair coupled after placement, radixes -- for ALL circuits, models and placements *)
+Theorem C02_is_compatible_spec : forall m c opl b,
+  is_compatible m c opl = Some b -> b = spec m c (placement_of c opl).
 Proof. exact is_compatible_spec. Qed.
 
 Theorem C02_is_compatible_spec_default : forall m c b,
-  wf_circ c = true -> is_compatible m c None = Some b -> b = spec m c (seq 0 (cw c)).
+  is_compatible m c None = Some b -> b = spec m c (seq 0 (cw c)).
 Proof. exact is_compatible_spec_default. Qed.
 
-Definition C02_is_compatible_spec_full : Prop := forall m c opl b,
-  is_compatible m c opl = Some b -> b = spec m c (placement_of c opl).
-
-(* refuted: CouplingGraph stores sorted pairs and tests raw tuples; a placement that swaps two coupled qudits
-   makes is_compatible answer False on an executable circuit *)
-Theorem C02_is_compatible_placement_refuted :
-  is_compatible ex_model ex_circ (Some [1; 0]) = Some false /\ spec ex_model ex_circ [1; 0] = true
-  /\ is_compatible ex_model ex_circ (Some [0; 1]) = Some true.
-Proof. exact is_compatible_placement_refuted. Qed.
+(* non-vacuity: a placement that swaps two coupled qudits (answered False before the fix), an uncoupled one *)
+Example C02_is_compatible_placement_example :
+  is_compatible ex_model ex_circ (Some [1; 0]) = Some true /\ spec ex_model ex_circ [1; 0] = true
+  /\ is_compatible ex_model ex_circ (Some [0; 2]) = Some false /\ spec ex_model ex_circ [0; 2] = false.
+Proof. exact is_compatible_placement_example. Qed.
 
 Theorem C02_is_compatible_total : forall m c opl,
   wf_pl m c (placement_of c opl) = true -> wf_circ c = true -> exists b, is_compatible m c opl = Some b.
@@ -118,7 +114,20 @@ Theorem C02_replace_filter_sound : forall m fully new old loc fn,
   is_respecting m new loc fully = true.
 Proof. exact replace_filter_sound. Qed.
 
-Theorem C02_is_respecting_spec : forall m b loc fully,
+(* _is_respecting still tests the RAW tuple against the sorted edge set: "respecting" has its intended meaning
+   only for a location listed in increasing order (C02_is_respecting_spec); otherwise refuted *)
+Definition C02_is_respecting_spec_full : Prop := forall m b loc fully,
+  is_respecting m b loc fully =
+    forallb (fun o => (List.length (oloc o) <? 2) || gmem (og o) (mgates m)) (cops b)
+    && (negb fully || forallb (fun o => (2 <=? List.length (oloc o)) || gmem (og o) (mgates m)) (cops b))
+    && forallb (fun e => coupled m (nth (fst e) loc 0) (nth (snd e) loc 0)) (circ_edges b).
+
+Theorem C02_is_respecting_location_refuted :
+  is_respecting ex_model ex_circ [1; 0] false = false /\ is_respecting ex_model ex_circ [0; 1] false = true
+  /\ coupled ex_model 1 0 = true.
+Proof. exact is_respecting_location_refuted. Qed.
+
+Theorem C02_is_respecting_spec_partial : forall m b loc fully,
   forallb (fun e => nth (fst e) loc 0 <=? nth (snd e) loc 0) (circ_edges b) = true ->
   is_respecting m b loc fully =
     forallb (fun o => (List.length (oloc o) <? 2) || gmem (og o) (mgates m)) (cops b)
